@@ -181,6 +181,28 @@ let () =
               else "ok"
           | _ -> "fail:no-answer" in
         Mlutil.print_model model verdict
+    | "dlv", [_store; period; wait; dates] ->
+        (* mail delivered through the real StoreManager.Deliver at clock 0 with its own Date: header; DoScan at clock [wait] *)
+        let period = int_of_string period and wait = int_of_string wait in
+        let ds = sp ',' dates in
+        let st0 = fst (List.fold_left (fun (st, i) d ->
+            let hdr = (match d with "x" | "g" -> None | s -> Some (z_of_int (int_of_string s))) in
+            (exec st (deliver_op (str_of_raw (Printf.sprintf "box%d" (i mod 2))) (z_of_int 0) hdr (n_of_int i) N0), i + 1))
+            (spec_init, 0) ds) in
+        let st1 = scan cfg (z_of_int (wait - period)) (List.map fst st0.counts) st0 in
+        let tags st = List.sort compare (List.map (fun e -> int_of_n e.e_msg.m_tag) st.live) in
+        let stok l = if l = [] then "-" else String.concat "," (List.map string_of_int l) in
+        let verdict = match outs with
+          | ["ok"; s] ->
+              let got = if s = "-" then [] else List.map int_of_string (sp ',' s) in
+              let all = List.mapi (fun i _ -> i) ds in
+              (* the oracle: every mail arrived [wait] seconds ago, whatever its Date header says *)
+              if wait < period && got <> all then "fail:deleted-young"
+              else if wait > period && got <> [] then "fail:expired-survived"
+              else "ok"
+          | r :: _ -> "fail:scan-" ^ String.lowercase_ascii r
+          | [] -> "fail:no-answer" in
+        Mlutil.print_model ["ok"; stok (tags st1)] verdict
     | "asm12", [period; n] ->
         (* the assembled server (go/asmsys) served a pre-populated file store for T seconds: which messages
            must still be there comes from the run-loop model *)
